@@ -56,6 +56,9 @@ func (self *Compiler) compileFn(node ast.AnalyzedFunctionDefinition) (annotation
 	oldTryDepth := self.tryDepth
 	self.tryDepth = 0
 	defer func() { self.tryDepth = oldTryDepth }()
+	oldPending := self.pending
+	self.pending = 0
+	defer func() { self.pending = oldPending }()
 
 	// Compile annotations.
 	if node.Annotation != nil {
